@@ -12,7 +12,7 @@ import (
 // commit (inlinable callees, see cut.go), which the path search walks into as well.
 func findInstrs(fn *ssa.Function, pred func(ssa.Instruction) bool) []ssa.Instruction {
 	var out []ssa.Instruction
-	if !inlinable(fn) && !scanBusy {
+	if isScanRoot(fn) && !scanBusy {
 		scanRoot = fn
 	}
 	seen := map[*ssa.Function]bool{fn: true}
@@ -189,10 +189,29 @@ func strip2(v ssa.Value) ssa.Value {
 		case *ssa.Parameter:
 			// inside a helper the path search walked into, a parameter is the caller's argument (see frameArgs)
 			a, ok := frameArgs[x]
+			if !ok && scanRoot != nil && x.Parent() != scanRoot && inlinable(x.Parent()) {
+				// outside a path search: the argument of the scanned function's only call of the helper
+				if arg := argOfParam(scanRoot, x); arg != nil {
+					a, ok = arg, true
+				}
+			}
 			if !ok || a == v {
 				return v
 			}
 			v = a
+		case *ssa.UnOp:
+			// a variable read inside a closure through its free variable: what it holds in the enclosing function
+			// (assigned once, or promoted by lift.go and known at the closure's call)
+			_, isFV := x.X.(*ssa.FreeVar)
+			_, isFA := x.X.(*ssa.FieldAddr)
+			if (!isFV && !isFA) || x.Op != token.MUL {
+				return v
+			}
+			r := resolveLoad(v)
+			if r == v {
+				return v
+			}
+			v = r
 		default:
 			return v
 		}
@@ -274,7 +293,7 @@ func writesLike(in ssa.Instruction, pred func(ssa.Instruction) bool, depth int) 
 		return false
 	}
 	found := false
-	allInstrs(callee, func(x ssa.Instruction) {
+	allInstrsIn(callee, func(x ssa.Instruction) {
 		if !found && writesLike(x, pred, depth-1) {
 			found = true
 		}
@@ -309,7 +328,7 @@ func siteLikeD(in ssa.Instruction, pred func(ssa.Instruction) bool, depth int) b
 		return false
 	}
 	found := false
-	allInstrs(g, func(x ssa.Instruction) {
+	allInstrsIn(g, func(x ssa.Instruction) {
 		if !found && siteLikeD(x, pred, depth-1) {
 			found = true
 		}
@@ -331,7 +350,7 @@ func siteIn(in ssa.Instruction, pred func(ssa.Instruction) bool) []ssa.Instructi
 		return nil
 	}
 	var out []ssa.Instruction
-	allInstrs(g, func(x ssa.Instruction) {
+	allInstrsIn(g, func(x ssa.Instruction) {
 		if siteLikeD(x, pred, 2) {
 			out = append(out, siteIn(x, pred)...)
 		}
@@ -342,7 +361,7 @@ func siteIn(in ssa.Instruction, pred func(ssa.Instruction) bool) []ssa.Instructi
 // blocksDeep: the blocks of fn and of the helpers extracted from it since the pinned commit (see findInstrs).
 func blocksDeep(fn *ssa.Function) []*ssa.BasicBlock {
 	var out []*ssa.BasicBlock
-	if !inlinable(fn) && !scanBusy {
+	if isScanRoot(fn) && !scanBusy {
 		scanRoot = fn
 	}
 	seen := map[*ssa.Function]bool{fn: true}
